@@ -4,7 +4,7 @@ from __future__ import annotations
 import z3
 
 from pyvc.values import (NONE, Arr, FuncRef, Lst, ObjRef, Opaque, Unsupported, fresh_name, is_concrete, mk_and, mk_not,
-                         num_cmp, to_real, to_z3)
+                         num_add, num_cmp, to_real, to_z3)
 
 SPEC_FUNCS = {}
 EXTERNALS = {"methods": {}}
@@ -760,3 +760,40 @@ LEMMA_PROOFS["L_sym_shift"] = _sym_shift_proof
 LEMMA_PROOFS["L_sym_scale"] = _sym_scale_proof
 LEMMA_PROOFS["L_sym_perm"] = _sym_perm_proof
 LEMMA_PROOFS["L_sym_rev"] = _sym_rev_proof
+
+
+# ----------------------------------------------------------------------------- Gaussian covariance cost (C01, C13)
+# LOGDETCOV(X[s:e]) = log det of the (ddof=0) sample covariance of the rows s..e-1; COVPD(X[s:e]) = that covariance is positive definite.
+# Both are uninterpreted functions of (data array, s, e): np.cov / np.linalg.slogdet are outside the verifier's reach (assumed contract of
+# log_det_covariance); a row slice of a row slice resolves to the root array, so "depends only on the rows s..e-1" is built into the key.
+_LDC = z3.Function("LOGDETCOV", _I, _I, _I, _R)
+_CPD = z3.Function("COVPD", _I, _I, _I, z3.BoolSort())
+
+
+def _seg_key(eng, st, X):
+    lo, n = 0, X.shape[0]          # the rows [lo, lo + n) of the root array
+    while getattr(X, "row_slice_of", None) is not None:
+        base, off, _length = X.row_slice_of
+        lo, X = num_add(lo, off), base
+    return _data_id(eng, st, X), to_z3(lo), to_z3(num_add(lo, n))
+
+
+def _data_id(eng, st, X):
+    if X.fn is None:
+        X2 = eng.materialise(st, X, "data")
+        X.fn = X2.fn
+    return z3.Int("ID_" + X.fn.name())
+
+
+@spec("LOGDETCOV")
+def _logdetcov(eng, st, X, *se):
+    if se:
+        return _LDC(_data_id(eng, st, X), to_z3(se[0]), to_z3(se[1]))
+    return _LDC(*_seg_key(eng, st, X))
+
+
+@spec("COVPD")
+def _covpd(eng, st, X, *se):
+    if se:
+        return _CPD(_data_id(eng, st, X), to_z3(se[0]), to_z3(se[1]))
+    return _CPD(*_seg_key(eng, st, X))
